@@ -5,6 +5,7 @@
 //!        c03 batch                     — stdin lines `<id>\t<ctx sexp>\t<prog sexp>` -> same case lines
 //!                                        (replay, shrinking, corpus)
 //!        c03 src <source> [ctx sexp]   — render a hand-written source, dumping the parsed AST as sexp
+//!        c03 wrap <kind> <P> <T> [ctx] — a hand-written wrapper case (see c03_wrap.inc): `(wrap kind P T)`
 //!
 //! result: `ok:<hex utf-8 output>` | `err:<ErrorKind>` | `panic` | `parse-mismatch:…` | `parse-error:…`
 //! Strings inside s-expressions are hex-encoded UTF-8 (`-` = empty); names are bare atoms.
@@ -86,6 +87,7 @@ fn hx(s: &str) -> String { if s.is_empty() { "-".into() } else { hex(s.as_bytes(
 include!("c03_sexp.inc");
 include!("c03_parse.inc");
 include!("c03_gen.inc");
+include!("c03_wrap.inc");
 
 // ------------------------------------------------------------------------------------------ run
 fn cv_value(v: &CV) -> Value {
@@ -204,16 +206,26 @@ fn main() {
             let mixed = rng.next() ^ seed_from_env().wrapping_mul(0xD6E8_FEB8_6659_FD93).rotate_left(23);
             let mut rng = Rng(mixed);
             for i in 0..n {
-                let (ctx, prog, stats) = gen_case(&mut rng);
+                let (ctx, prog, stats, winfo) = gen_case(&mut rng);
                 let src = b_src(&prog);
                 writeln!(out, "{}", run_case(&format!("g{}", i), &ctx, &src, Some(&prog), &stats)).unwrap();
+                // the same program through one of the other entry forms
+                let kind = WRAP_KINDS[i % WRAP_KINDS.len()];
+                let tail = gen_tail(&mut rng, kind, &winfo, &ctx);
+                let p: &[S] = if kind == "expr" { &[] } else { &prog };
+                writeln!(out, "{}", run_wrap_case(&format!("g{}w", i), &ctx, kind, p, &tail, &format!("kinds=wrap-{}", kind))).unwrap();
             }
         }
         Some("batch") => {
             let mut line = String::new();
             while std::io::stdin().read_line(&mut line).unwrap() > 0 {
                 let f: Vec<&str> = line.trim_end_matches('\n').split('\t').collect();
-                if f.len() >= 3 {
+                if f.len() >= 3 && f[2].starts_with("(wrap ") {
+                    match (parse_ctx(f[1]), parse_wrap(f[2])) {
+                        (Some(ctx), Some((kind, p, t))) => writeln!(out, "{}", run_wrap_case(f[0], &ctx, &kind, &p, &t, "-")).unwrap(),
+                        _ => writeln!(out, "{}\t{}\t{}\tbad-case\t-\t-\t-", f[0], f[1], f[2]).unwrap(),
+                    }
+                } else if f.len() >= 3 {
                     match (parse_ctx(f[1]), parse_prog(f[2])) {
                         (Some(ctx), Some(prog)) => {
                             let src = b_src(&prog);
@@ -229,6 +241,13 @@ fn main() {
             let ctx = args.get(3).map(|s| parse_ctx(s).expect("ctx sexp")).unwrap_or_default();
             writeln!(out, "{}", run_case("src", &ctx, &args[2], None, "-")).unwrap();
         }
-        _ => eprintln!("usage: c03 gen <quick|thorough> [n] | batch | src <source> [ctx]"),
+        Some("wrap") => {
+            // c03 wrap <kind> <source of P> <source of T> [ctx]: a hand-written wrapper case
+            let ctx = args.get(5).map(|s| parse_ctx(s).expect("ctx sexp")).unwrap_or_default();
+            let p = real_ast(&args[3]).expect("P");
+            let t = real_ast(&args[4]).expect("T");
+            writeln!(out, "{}", run_wrap_case("wrap", &ctx, &args[2], &p, &t, "-")).unwrap();
+        }
+        _ => eprintln!("usage: c03 gen <quick|thorough> [n] | batch | src <source> [ctx] | wrap <kind> <P> <T> [ctx]"),
     }
 }
